@@ -59,7 +59,17 @@ theorem macho_sign_then_verify_partial (ps : Nat) (hps : 0 < ps) (f h3 : Bytes) 
     the verifier's pages are the signer's pages.  Not proved as one theorem (the load-command walk of `scan`/`newFile`
     on an arbitrary header is not characterised); its three links are `macho_written_is_reference`,
     `macho_sign_then_verify_partial` and C05.sign_codedir_eq_spec, and it is exercised on every run by the `sign` op
-    (model prediction `verify=ok` against `machos.Verify` on the really signed file). -/
+    (model prediction `verify=ok` against `machos.Verify` on the really signed file).
+    STATUS (Props/C01_MachOLocate.lean): AS WRITTEN THIS STATEMENT IS FALSE IN THE MODEL
+    (`not_macho_sign_then_verify_full`: an image with an LC_SYMTAB command is signed, but the model's partial
+    `loadLoop` answers "unmodelled" on the signed file — a gap of the statement, not of relic).  The corrected statement,
+    with the explicit regularity bundle `Regular` (parser accepts the input, one 16-byte LC_CODE_SIGNATURE at most, no
+    slack behind the last command, __LINKEDIT command kind = file magic, signature region behind the load commands and
+    inside the file, `sigBufLen ≤ 10^7`), is proved for both branches of `PatchSignature` as `macho_sign_then_locate`
+    (plus `macho_sign_then_verify_regular` = the three conjuncts below).  The hypotheses `lePos ≠ 0` and
+    `lePos + 56 ≤ nextLc` are derivable (`macho_markers_derivable`); `padding = 0 ∨ f.length = codeSize` is not needed.
+    The whole chain up to `machos.Verify`'s verdict (superblob / code-directory round trips, special slots, `VerifyPages`) is
+    `macho_sign_then_verify_end_to_end` in Props/C01_MachOFull.lean. -/
 def macho_sign_then_verify_full : Prop :=
   ∀ (f : Bytes) (p : SignParams) (so : SignOut) (blob : Bytes),
     sign f p = .ok so → so.plan.m.lePos ≠ 0 → so.plan.m.lePos + 56 ≤ so.plan.m.nextLc →
